@@ -370,8 +370,186 @@ pub fn ws_strategy() -> impl Strategy<Value = WsCase> {
         })
 }
 
+
+// ---------------------------------------------------------------------------------------
+// writes under TCP back-pressure: the peer does not read until the writer has stalled
+// ---------------------------------------------------------------------------------------
+#[derive(Clone, Debug)]
+pub struct PressureCase {
+    pub packets: usize,
+    /// requested SO_SNDBUF of the client socket
+    pub sndbuf: u32,
+    /// text length pattern (cycled): frames of different sizes
+    pub lens: Vec<usize>,
+}
+
+fn pressure_packet(i: usize, len: usize) -> insim::Packet {
+    let mut text = format!("message number {i:08} ");
+    while text.len() < len {
+        text.push((b'a' + (text.len() % 26) as u8) as char);
+    }
+    text.truncate(len.max(24).min(95));
+    insim::Packet::Msx(insim::insim::Msx { reqi: insim::identifiers::RequestId((i % 255) as u8 + 1), msg: text })
+}
+
+pub struct BackPressure;
+impl Part for BackPressure {
+    type Case = PressureCase;
+    fn name(&self) -> &'static str {
+        "writes-under-tcp-back-pressure"
+    }
+    fn check(&self, c: &PressureCase, ev: &mut Local) -> Result<(), Fail> {
+        use std::sync::atomic::{AtomicUsize, Ordering};
+        use std::sync::Arc;
+        let rt = tokio::runtime::Builder::new_current_thread().enable_all().build().expect("runtime");
+        let c2 = c.clone();
+        let codec = Codec::new(MODE);
+        let expected: Vec<Vec<u8>> = (0..c.packets).map(|i| codec.encode(&pressure_packet(i, c.lens[i % c.lens.len()])).unwrap().to_vec()).collect();
+        let out = guard(move || {
+            rt.block_on(async move {
+                let listener = tokio::net::TcpListener::bind("127.0.0.1:0").await.map_err(|e| format!("bind: {e}"))?;
+                let addr = listener.local_addr().unwrap();
+                let written = Arc::new(AtomicUsize::new(0));
+                let w2 = written.clone();
+                let total = c2.packets;
+                let server = tokio::spawn(async move {
+                    let (stream, _) = listener.accept().await.ok()?;
+                    let mut ws = tokio_tungstenite::accept_async(stream).await.ok()?;
+                    // do not read until the writer has made no progress for a while (its send buffer is full) or is done
+                    let mut last = usize::MAX;
+                    let mut same = 0;
+                    let mut stalled_at = None;
+                    loop {
+                        tokio::time::sleep(Duration::from_millis(15)).await;
+                        let now = w2.load(Ordering::SeqCst);
+                        if now == last {
+                            same += 1;
+                        } else {
+                            same = 0;
+                        }
+                        last = now;
+                        if now >= total || same >= 4 {
+                            if now < total {
+                                stalled_at = Some(now);
+                            }
+                            break;
+                        }
+                    }
+                    // The adaptor reports a frame as written once tungstenite has queued it; whatever the socket did not
+                    // take yet leaves with the connection's next write. Like a real host, send a keep-alive now and then:
+                    // the client's reply is that next write (the replies themselves are filtered out below).
+                    let mut got: Vec<Vec<u8>> = vec![];
+                    let mut idle = 0;
+                    while got.len() < total && idle < 40 {
+                        match tokio::time::timeout(Duration::from_millis(150), ws.next()).await {
+                            Ok(Some(Ok(Message::Binary(b)))) => {
+                                idle = 0;
+                                if b[..] != [4u8, 3, 0, 0] {
+                                    got.push(b.to_vec());
+                                }
+                            },
+                            Ok(Some(Ok(_))) => {},
+                            Ok(_) => break,
+                            Err(_) => {
+                                idle += 1;
+                                if ws.send(Message::binary(vec![4u8, 3, 0, 0])).await.is_err() {
+                                    break;
+                                }
+                            },
+                        }
+                    }
+                    // anything beyond the expected number is a duplicate: give it a moment to arrive, then close
+                    while let Ok(Some(Ok(m))) = tokio::time::timeout(Duration::from_millis(60), ws.next()).await {
+                        if let Message::Binary(b) = m {
+                            if b[..] != [4u8, 3, 0, 0] {
+                                got.push(b.to_vec());
+                            }
+                        }
+                        if got.len() > total + 8 {
+                            break;
+                        }
+                    }
+                    let _ = ws.close(None).await;
+                    while let Ok(Some(Ok(_))) = tokio::time::timeout(Duration::from_secs(2), ws.next()).await {}
+                    Some((got, stalled_at))
+                });
+                let sock = tokio::net::TcpSocket::new_v4().map_err(|e| format!("bind: {e}"))?;
+                let _ = sock.set_send_buffer_size(c2.sndbuf);
+                let tcp = sock.connect(addr).await.map_err(|e| format!("connect: {e}"))?;
+                let url = format!("ws://{addr}/connect");
+                let (ws, _) = tokio_tungstenite::client_async(url, tokio_tungstenite::MaybeTlsStream::Plain(tcp)).await.map_err(|e| format!("connect: {e}"))?;
+                let mut framed = insim::net::tokio_impl::Framed::new(Box::new(insim::net::tokio_impl::WebsocketStream::from(ws)), Codec::new(MODE));
+                for i in 0..c2.packets {
+                    let p = pressure_packet(i, c2.lens[i % c2.lens.len()]);
+                    match tokio::time::timeout(SESSION_LIMIT, framed.write(p)).await {
+                        Ok(Ok(())) => {},
+                        Ok(Err(e)) => return Err(format!("write #{i}: {e}")),
+                        Err(_) => return Err(format!("hang: write #{i} did not complete within 10 s")),
+                    }
+                    written.store(i + 1, Ordering::SeqCst);
+                }
+                // like an application's main loop, keep reading until the peer closes (the read path also drives
+                // tungstenite's pending output); dropping the connection right after the last write would discard
+                // whatever the websocket layer still buffers, which is not what the property is about
+                let _ = tokio::time::timeout(SESSION_LIMIT, async {
+                    loop {
+                        if framed.read().await.is_err() {
+                            break;
+                        }
+                    }
+                })
+                .await;
+                drop(framed);
+                match tokio::time::timeout(Duration::from_secs(20), server).await {
+                    Ok(Ok(Some(r))) => Ok(r),
+                    _ => Err("server task did not finish".to_string()),
+                }
+            })
+        });
+        let (got, stalled_at) = match out {
+            Err(p) => fail!("c20:panic", "{p}"),
+            Ok(Err(e)) => {
+                if e.starts_with("bind") || e.starts_with("connect") {
+                    eprintln!("INCONCLUSIVE: loopback websocket unavailable: {e}");
+                    std::process::exit(2);
+                }
+                fail!("c20:transport-error", "{e}");
+            },
+            Ok(Ok(r)) => r,
+        };
+        if got != expected {
+            let i = (0..got.len().max(expected.len())).find(|i| got.get(*i) != expected.get(*i)).unwrap();
+            let dup = i > 0 && got.get(i) == expected.get(i - 1);
+            fail!(
+                if dup { "c20:message-sent-twice" } else { "c20:write-not-one-binary-message" },
+                "{} packets written under back-pressure (writer stalled at {:?}); binary message #{i} is {} but packet #{i} encodes to {}; the server saw {} messages",
+                expected.len(),
+                stalled_at,
+                got.get(i).map(|f| hex(&f[..f.len().min(28)])).unwrap_or("<nothing>".into()),
+                expected.get(i).map(|f| hex(&f[..f.len().min(28)])).unwrap_or("<nothing>".into()),
+                got.len()
+            );
+        }
+        // the adaptor never pushes back on the writer (tungstenite queues in user space), so a stall is rarely seen;
+        // what matters is that far more was written than the socket buffers hold while the peer was not reading
+        ev.nontrivial(&format!("{c:?}"));
+        ev.class(if stalled_at.is_some() { "writer-stalled-on-full-send-buffer" } else { "output-queued-beyond-socket-buffers" });
+        ev.max("packets", c.packets as u64);
+        if ev.wants_sample() {
+            ev.sample(|| json!({"packets": c.packets, "sndbuf": c.sndbuf, "stalled_after": stalled_at}));
+        }
+        Ok(())
+    }
+    fn to_json(&self, c: &PressureCase) -> Value {
+        json!({"packets": c.packets, "sndbuf": c.sndbuf, "lens": c.lens})
+    }
+    fn from_json(&self, v: &Value) -> Option<PressureCase> {
+        Some(PressureCase { packets: v.get("packets")?.as_u64()? as usize, sndbuf: v.get("sndbuf")?.as_u64()? as u32, lens: v.get("lens")?.as_array()?.iter().filter_map(|x| x.as_u64().map(|x| x as usize)).collect() })
+    }
+}
+
 pub fn parts() -> Vec<Box<dyn DynPart>> {
-    vec![Box::new(WsSessions)]
+    vec![Box::new(WsSessions), Box::new(BackPressure)]
 }
 
 pub fn run(run: &mut Run) {
@@ -381,7 +559,7 @@ pub fn run(run: &mut Run) {
         performs a close handshake. The client wraps the socket with the crate's WebsocketStream. Oracle: packets delivered through Framed \
         equal the TCP model's list for the concatenated binary payloads and end in Disconnected; raw reads with caller buffers of 1..2048 \
         bytes return exactly the payload bytes; each Framed::write (and each keep-alive reply) reaches the server as exactly one binary \
-        message equal to the frame. Non-trivial = a frame spans two or more messages, or a non-binary message sits inside a frame."
+        message equal to the frame. A second part writes 2 000..12 000 packets through a client socket with a small send buffer while the server refuses to read until the writer has stalled, then compares every binary message with its frame. Non-trivial = a frame spans two or more messages, or a non-binary message sits inside a frame."
         .into();
     run.assumptions = vec![
         "tokio-tungstenite on loopback delivers messages in order; the 10 s session limit can only be hit if data was lost (the server sends everything and closes)".into(),
@@ -390,4 +568,9 @@ pub fn run(run: &mut Run) {
     run.max_shrink_iters = std::env::var("VP_SHRINK").ok().and_then(|s| s.parse().ok()).unwrap_or(300);
     let n = run.budget(600, 20_000);
     run.prop(&WsSessions, ws_strategy(), n);
+    // back-pressure: the harness owns the peer's schedule (it does not read until the writer stalls)
+    run.max_shrink_iters = 12;
+    let strat = (2_000usize..12_000, prop_oneof![Just(4096u32), Just(8192), Just(16384), Just(65536)], proptest::collection::vec(24usize..96, 1..5)).prop_map(|(packets, sndbuf, lens)| PressureCase { packets, sndbuf, lens });
+    let n = run.budget(24, 400);
+    run.prop(&BackPressure, strat, n);
 }
